@@ -7,6 +7,19 @@ Import ListNotations.
 Definition is_q (t : tok) : bool := match t with TQ => true | _ => false end.
 Definition hasq (ts : list ptok) : bool := existsb (fun t => is_q (snd t)) ts.
 
+(* is there a '?' outside brackets ([d] = current bracket depth) *)
+Fixpoint topq_d (d : nat) (l : list ptok) : bool :=
+  match l with
+  | [] => false
+  | t :: r => match snd t with
+              | TLP | TLB => topq_d (S d) r
+              | TRP | TRB => topq_d (Nat.pred d) r
+              | TQ => Nat.eqb d 0 || topq_d d r
+              | _ => topq_d d r
+              end
+  end.
+Definition topq (l : list ptok) : bool := topq_d 0 l.
+
 (* does the rendering have a  ,  <  or  ?  outside brackets *)
 Fixpoint topn (e : expr) : bool :=
   let sub := fun (m : nat) (x : expr) (r : bool) => if Nat.ltb (prec x) m then false else r in
